@@ -222,8 +222,8 @@ inline void add_limited(ClassAdapter<D>& A, const std::string& nm, F f, bool all
     if (!widen_pre(d, a)) return std::string("skipped");
     if (al) f(d, *a, d.constraints(), (unsigned*)0); else { Constraint_System cs(d.constraints()); f(d, *a, cs, (unsigned*)0); }
     return std::string(); });
-  if (all_forms) A.muts.push_back(M(nm + "(arg,arg.constraints()) on a copy of the receiver", true, [f](D& d, const D* a) { if (!widen_pre(d, a)) return std::string("skipped"); D t(d); f(t, *a, a->constraints(), (unsigned*)0); return b2s(t.OK()); }, true));
-  if (all_forms) A.muts.push_back(M(nm + "(arg,arg.minimized_constraints(),tokens=1) on a copy of the receiver", true, [f](D& d, const D* a) { if (!widen_pre(d, a)) return std::string("skipped"); D t(d); unsigned tk = 1; f(t, *a, a->minimized_constraints(), &tk); return b2s(t.OK()); }, true));
+  if (all_forms) A.muts.push_back(M(nm + "(arg,arg.constraints()) on a copy of the receiver", true, [f](D& d, const D* a) { if (!widen_pre(d, a)) return std::string("skipped"); D t(d); f(t, *a, a->constraints(), (unsigned*)0); return std::string(t.OK() ? "" : "copy-not-OK"); }, true));
+  if (all_forms) A.muts.push_back(M(nm + "(arg,arg.minimized_constraints(),tokens=1) on a copy of the receiver", true, [f](D& d, const D* a) { if (!widen_pre(d, a)) return std::string("skipped"); D t(d); unsigned tk = 1; f(t, *a, a->minimized_constraints(), &tk); return std::string(t.OK() ? "" : "copy-not-OK"); }, true));
 }
 template <class D, class F>
 inline void add_widening(ClassAdapter<D>& A, const std::string& nm, F f, bool plain = true) {
@@ -317,12 +317,12 @@ inline void add_domain_specific(ClassAdapter<PPL::Grid>& A, const PPL::Grid*) {
     int k = ls[i].k; std::string nm = ls[i].n;
     std::function<void(D&, const D&, const Congruence_System&, unsigned*)> f = [k](D& d, const D& a, const Congruence_System& cs, unsigned* t) {
       if (k == 0) d.limited_congruence_extrapolation_assign(a, cs, t); else if (k == 1) d.limited_generator_extrapolation_assign(a, cs, t); else d.limited_extrapolation_assign(a, cs, t); };
-    A.muts.push_back(M(nm + "(arg,arg.congruences()) on a copy of the receiver", true, [f](D& d, const D* a) { if (!widen_pre(d, a)) return std::string("skipped"); D t(d); f(t, *a, a->congruences(), (unsigned*)0); return b2s(t.OK()); }, true));
+    A.muts.push_back(M(nm + "(arg,arg.congruences()) on a copy of the receiver", true, [f](D& d, const D* a) { if (!widen_pre(d, a)) return std::string("skipped"); D t(d); f(t, *a, a->congruences(), (unsigned*)0); return std::string(t.OK() ? "" : "copy-not-OK"); }, true));
     alias_pair(A, nm + "(arg,receiver.congruences())", true, [f](D& d, const D* a, bool al) {
       if (!widen_pre(d, a)) return std::string("skipped");
       if (al) f(d, *a, d.congruences(), (unsigned*)0); else { Congruence_System cs(d.congruences()); f(d, *a, cs, (unsigned*)0); }
       return std::string(); });
-    A.muts.push_back(M(nm + "(arg,arg.minimized_congruences(),tokens=1) on a copy of the receiver", true, [f](D& d, const D* a) { if (!widen_pre(d, a)) return std::string("skipped"); D t(d); unsigned tk = 1; f(t, *a, a->minimized_congruences(), &tk); return b2s(t.OK()); }, true));
+    A.muts.push_back(M(nm + "(arg,arg.minimized_congruences(),tokens=1) on a copy of the receiver", true, [f](D& d, const D* a) { if (!widen_pre(d, a)) return std::string("skipped"); D t(d); unsigned tk = 1; f(t, *a, a->minimized_congruences(), &tk); return std::string(t.OK() ? "" : "copy-not-OK"); }, true));
   }
   // modulus forms with both expressions bound to one object
   Linear_Expression e = x + y;
@@ -459,8 +459,8 @@ inline void add_powerset_extras(ClassAdapter<PPL::Pointset_Powerset<P> >& A) {
   add_same_expression_ops(A, true);
   A.muts.push_back(M("BGP99_extrapolation_assign(arg,widening,2) on canonical forms", true, [](D& d, const D* a) { return canonical_widen(d, a, [](D& x, const D& y) { ps_bgp99(x, y); }); }));
   A.muts.push_back(M("BHZ03_widening_assign(arg,widening) on canonical forms", true, [](D& d, const D* a) { return canonical_widen(d, a, [](D& x, const D& y) { ps_bhz03(x, y); }); }));
-  A.muts.push_back(M("BGP99_extrapolation_assign(arg,widening,2) on a copy of the receiver", true, [](D& d, const D* a) { if (d.space_dimension() != a->space_dimension() || (a != &d && !a->definitely_entails(d))) return std::string("skipped"); D t(d); ps_bgp99(t, *a); return b2s(t.OK()); }, true));
-  A.muts.push_back(M("BHZ03_widening_assign(arg,widening) on a copy of the receiver", true, [](D& d, const D* a) { if (d.space_dimension() != a->space_dimension() || (a != &d && !a->definitely_entails(d))) return std::string("skipped"); D t(d); ps_bhz03(t, *a); return b2s(t.OK()); }, true));
+  A.muts.push_back(M("BGP99_extrapolation_assign(arg,widening,2) on a copy of the receiver", true, [](D& d, const D* a) { if (d.space_dimension() != a->space_dimension() || (a != &d && !a->definitely_entails(d))) return std::string(); D t(d); ps_bgp99(t, *a); return std::string(t.OK() ? "" : "copy-not-OK"); }, true));
+  A.muts.push_back(M("BHZ03_widening_assign(arg,widening) on a copy of the receiver", true, [](D& d, const D* a) { if (d.space_dimension() != a->space_dimension() || (a != &d && !a->definitely_entails(d))) return std::string(); D t(d); ps_bhz03(t, *a); return std::string(t.OK() ? "" : "copy-not-OK"); }, true));
   alias_pair(A, "add_disjunct(last of own disjuncts)", false, [](D& d, const D*, bool al) {
     if (d.begin() == d.end()) return std::string();
     typename D::const_iterator i = d.begin(), n = i; for (++n; n != d.end(); ++n) i = n;
@@ -479,7 +479,8 @@ inline ClassAdapter<PPL::Pointset_Powerset<P> > powerset_full_adapter(const std:
   ClassAdapter<PPL::Pointset_Powerset<P> > A = powerset_adapter<P>(name);
   keep_only(A, lite_unary());
   // the number and the order of the disjuncts are not part of the value (omega-reduction is a lazy, const operation)
-  drop_named(A, std::vector<std::string>({"size()", "drop_first_disjunct"}));
+  // (contains / strictly_contains / definitely_entails are documented disjunct by disjunct, i.e. on the syntactic powerset)
+  drop_named(A, std::vector<std::string>({"size()", "drop_first_disjunct", "contains", "strictly_contains", "definitely_entails", "add_first_disjunct_of_arg"}));
   add_powerset_extras(A);
   return A;
 }
@@ -871,6 +872,8 @@ inline ClassAdapter<N> checked_number_adapter(const std::string& name) {
     int k = t3[i].k; std::string n = t3[i].n;
     std::function<std::string(D&, const D&, const D&)> f = [k](D& to, const D& x, const D& y) {
       if (PPL::is_not_a_number(x) || PPL::is_not_a_number(y) || PPL::is_not_a_number(to)) return std::string("skipped");
+      // the policy under test does not check inf - inf, 0 * inf, inf / inf: arithmetic on finite operands only
+      if ((PPL::infinity_sign(x) != 0) || (PPL::infinity_sign(y) != 0) || (PPL::infinity_sign(to) != 0)) return std::string("skipped");
       if ((k == 4 || k == 5) && !INTEGRAL) return std::string("skipped");
       if ((k == 4 || k == 5) && (!PPL::is_integer(x) || !PPL::is_integer(y) || (PPL::infinity_sign(x) != 0) || (PPL::infinity_sign(y) != 0))) return std::string("skipped");
       if ((k == 6 || k == 7) && ((PPL::infinity_sign(x) != 0) || (PPL::infinity_sign(y) != 0) || (PPL::infinity_sign(to) != 0))) return std::string("skipped");
@@ -955,7 +958,7 @@ inline ClassAdapter<PPL::Matrix<R> > matrix_adapter(const std::string& name) {
   A.initials.push_back(std::make_pair(std::string("0x0"), std::function<D*()>([]() { return new D(); })));
   A.muts.push_back(M("add_zero_rows(1)", false, [](D& m, const D*) { m.add_zero_rows(1); return std::string(); }));
   A.muts.push_back(M("add_zero_columns(1)", false, [](D& m, const D*) { m.add_zero_columns(1); return std::string(); }));
-  A.muts.push_back(M("add_zero_columns(1,0)", false, [](D& m, const D*) { m.add_zero_columns(1, 0); return std::string(); }));
+  A.muts.push_back(M("add_zero_columns(1,0)", false, [](D& m, const D*) { if (m.num_columns() < 1) return std::string("skipped"); m.add_zero_columns(1, 0); return std::string(); }));
   A.muts.push_back(M("add_zero_rows_and_columns(1,1)", false, [](D& m, const D*) { m.add_zero_rows_and_columns(1, 1); return std::string(); }));
   mx_remove_column_op(A);
   A.muts.push_back(M("remove_trailing_columns(1)", false, [](D& m, const D*) { if (m.num_columns() < 1) return std::string("skipped"); m.remove_trailing_columns(1); return std::string(); }));
@@ -1034,7 +1037,11 @@ inline ClassAdapter<PPL::Bit_Matrix> bit_matrix_adapter() {
   A.muts.push_back(M("resize(3,4)", false, [](D& m, const D*) { m.resize(3, 4); return std::string(); }));
   A.muts.push_back(M("resize(1,2)", false, [](D& m, const D*) { m.resize(1, 2); return std::string(); }));
   A.muts.push_back(M("remove_trailing_rows(1)", false, [](D& m, const D*) { if (m.num_rows() < 1) return std::string("skipped"); m.remove_trailing_rows(1); return std::string(); }));
-  A.muts.push_back(M("remove_trailing_columns(1)", false, [](D& m, const D*) { if (m.num_columns() < 1) return std::string("skipped"); m.remove_trailing_columns(1); return std::string(); }));
+  A.muts.push_back(M("remove_trailing_columns(1)", false, [](D& m, const D*) {
+    if (m.num_columns() < 1) return std::string("skipped");
+    // documented precondition: the removed columns are all zeros
+    for (dimension_type i = 0; i < m.num_rows(); ++i) if (m[i][m.num_columns() - 1]) return std::string("skipped");
+    m.remove_trailing_columns(1); return std::string(); }));
   A.muts.push_back(M("clear()", false, [](D& m, const D*) { m.clear(); return std::string(); }));
   A.muts.push_back(M("set [0][1]", false, [](D& m, const D*) { if (m.num_rows() < 1 || m.num_columns() < 2) return std::string("skipped"); m[0].set(1); return std::string(); }));
   A.muts.push_back(M("OK()", false, [](D& m, const D*) { return b2s(m.OK()); }, true));
